@@ -150,7 +150,7 @@ class FakeSocketModule:
             if len(opened) >= limit:
                 raise OSError(24, 'Too many open files')
         self.net.ephemeral += 1
-        sk = FakeSocket(self.net, node, (node.host, 40000 + self.net.ephemeral))
+        sk = FakeSocket(self.net, node, (node.host, 40000 + self.net.ephemeral % 9000))   # a real ephemeral port never exceeds 65535
         if limit is not None:
             if not hasattr(node, 'sockets_opened'):
                 node.sockets_opened = []
@@ -327,7 +327,7 @@ class RawPeer:
         self.host = host
         self.name = 'raw-' + host
         net.ephemeral += 1
-        self.sock = FakeSocket(net, self, (host, 50000 + net.ephemeral))
+        self.sock = FakeSocket(net, self, (host, 50000 + net.ephemeral % 15000))   # a real ephemeral port never exceeds 65535
         self.received = bytearray()
 
     def connect(self, node):
